@@ -244,6 +244,16 @@ Theorem C18_dot_edges_once : forall d out n,
 Proof. exact dot_edges_once. Qed.
 Print Assumptions C18_dot_edges_once.
 
+(* The text Sprint/Fprint produce is exactly: the header "digraph <quoted name> {", the
+   renderings of those statements in that order (n<i><attrs>; and n<i> -> n<o><attrs>;), and
+   the closing brace - so "every node and edge once" is a statement about the output itself. *)
+Theorem C18_dot_sprint_shape : forall d out n b, dot_sprint d out n = Some b ->
+  exists body, render_all (dot_stmts d out n) = Some body /\
+    b = ([100; 105; 103; 114; 97; 112; 104; 32] ++ dot_string (d_name d) ++ [32; 123; 10]
+         ++ body ++ [125; 10])%N.
+Proof. exact dot_sprint_shape. Qed.
+Print Assumptions C18_dot_sprint_shape.
+
 Theorem C18_dot_node_names_injective : forall a b, dec_N a = dec_N b -> a = b.
 Proof. exact dec_N_inj. Qed.
 Print Assumptions C18_dot_node_names_injective.
